@@ -790,10 +790,13 @@ impl<S: USet> Eng<S> {
 
     // ---------------------------------------------------------------- == | -
     pub fn op_eq(&mut self, i: usize, j: usize) {
-        let (b1, b2) = {
+        let (b1, b2, n1) = {
             let (a, b) = (self.slots[i].as_ref().unwrap(), self.slots[j].as_ref().unwrap());
-            (a == b, b == a)
+            (a == b, b == a, a != b)
         };
+        if n1 == b1 {
+            self.fail("C08", format!("`!=` gives {} where `==` gives {}", n1, b1));
+        }
         let want = self.oracle[i] == self.oracle[j];
         self.emit(&format!("{} {} {} {}", if S::HAS_OWN_OPS { "eq" } else { "eq64" }, i, j, b1 as u8));
         if let (Some(h1), Some(h2)) = (self.slots[i].as_ref().unwrap().hash_words(), self.slots[j].as_ref().unwrap().hash_words()) {
